@@ -842,3 +842,33 @@ def attr_writes(fn: ast.AST, path: str, include_nested: bool = True) -> List[Tup
             elif dotted(f) == "setattr" and len(n.args) >= 2 and isinstance(n.args[1], ast.Constant) and f"{dotted(n.args[0])}.{n.args[1].value}" == path:
                 res.append((n, "setattr"))
     return res
+
+
+def close_facts(fs: List[Fact]) -> List[Fact]:
+    """Propositional closure of a fact list: from not(A and B) and A derive not B (then split)."""
+    out = list(fs)
+    known = {(f.text, f.positive) for f in out}
+    changed = True
+    while changed:
+        changed = False
+        for f in list(out):
+            if f.positive:
+                continue
+            try:
+                e = ast.parse(f.text, mode="eval").body
+            except SyntaxError:
+                continue
+            if isinstance(e, ast.BoolOp) and isinstance(e.op, ast.And):
+                unknown = []
+                for v in e.values:
+                    parts = facts_of_condition(v, True)
+                    if all((p.text, p.positive) in known for p in parts):
+                        continue
+                    unknown.append(v)
+                if len(unknown) == 1:
+                    for nf in facts_of_condition(unknown[0], False, "derived"):
+                        if (nf.text, nf.positive) not in known:
+                            known.add((nf.text, nf.positive))
+                            out.append(nf)
+                            changed = True
+    return out
